@@ -1,6 +1,8 @@
 pub mod bep42;
 pub mod codec;
 pub mod handler;
+pub mod node;
+pub mod node_sim;
 pub mod storage;
 pub mod table;
 pub mod tid;
@@ -13,6 +15,7 @@ pub fn make(name: &str) -> Option<Box<dyn Engine>> {
         "bep42" => Some(Box::new(bep42::Bep42::default())),
         "codec" => Some(Box::new(codec::CodecEngine::default())),
         "handler" => Some(Box::new(handler::HandlerEngine::default())),
+        "node" => Some(Box::new(node::NodeEngine::default())),
         "storage" => Some(Box::new(storage::StorageEngine::default())),
         "table" => Some(Box::new(table::TableEngine::default())),
         "tid" => Some(Box::new(tid::Tid::default())),
